@@ -30,7 +30,6 @@ CONSTANTS
   BranchKinds,    \* subset of {"Fork", "Hierarchical"}
   Fanouts,        \* spatial fanouts a Memory / Toll / Container may carry
   ComputeFanouts, \* spatial fanouts a Compute may carry
-  BranchTags,     \* {1}; larger sets only make branch nodes more likely in -simulate
   MinEmit,        \* the generator prints only trees with at least this many nodes
   AppendComputes, \* iterator variant: Compute leaves are appended to the shared list
   CountOwn        \* cost variant: the component's own fanout is multiplied in
@@ -41,8 +40,9 @@ VARIABLES tree,   \* the tree (grown node by node, then fixed)
 
 vars == <<tree, pc, st>>
 
-SetMin(S) == CHOOSE x \in S : \A y \in S : x <= y
-SetMax(S) == CHOOSE x \in S : \A y \in S : x >= y
+\* the function f over 1..n as an explicit tuple (every f[k] is evaluated exactly once)
+RECURSIVE Conc(_, _)
+Conc(f, n) == IF n = 0 THEN <<>> ELSE Append(Conc(f, n - 1), f[n])
 
 \* the elements of S \subseteq 1..n in ascending order
 RECURSIVE AscFrom(_, _, _)
@@ -50,6 +50,9 @@ AscFrom(S, k, n) == IF k > n THEN <<>>
                     ELSE IF k \in S THEN <<k>> \o AscFrom(S, k + 1, n)
                     ELSE AscFrom(S, k + 1, n)
 Asc(S, n) == AscFrom(S, 1, n)
+
+RECURSIVE SumSeq(_)
+SumSeq(s) == IF s = <<>> THEN 0 ELSE Head(s) + SumSeq(Tail(s))
 
 -----------------------------------------------------------------------------
 (* Structure                                                                *)
@@ -59,48 +62,55 @@ IsCompute(t, i)   == t[i].k = "Compute"
 IsPathLeaf(t, i)  == IsLeaf(t, i) /\ ~ IsCompute(t, i)
 IsComponent(t, i) == t[i].k \in {"Memory", "Toll", "Compute"}   \* has area / leak power
 
+Computes(t)     == {c \in 1..Len(t) : IsCompute(t, c)}
+ComponentsOf(t) == {i \in 1..Len(t) : IsComponent(t, i)}
+
 \* last node of the subtree rooted at a
 RECURSIVE SubEndFrom(_, _, _)
 SubEndFrom(t, a, j) == IF j > Len(t) \/ t[j].d <= t[a].d THEN j - 1
                        ELSE SubEndFrom(t, a, j + 1)
 SubEnd(t, a) == SubEndFrom(t, a, a + 1)
-InSub(t, a, i) == a <= i /\ i <= SubEnd(t, a)
 
-Forks(t)          == {a \in 1..Len(t) : t[a].k = "Fork"}
-ForksAround(t, i) == {a \in Forks(t) : a < i /\ InSub(t, a, i)}
-Computes(t)       == {c \in 1..Len(t) : IsCompute(t, c)}
+(* Two tables about a tree, computed once per tree and handed to the         *)
+(* definitions below as `v` (TLC would otherwise recompute them per use):    *)
+(*   v.end[a]    last node of the subtree of a     (a contains i iff         *)
+(*                                                  a <= i <= v.end[a])      *)
+(*   v.around[i] the Forks that contain node i (other than i itself)         *)
+View(t) ==
+  LET n   == Len(t)
+      end == Conc([a \in 1..n |-> SubEnd(t, a)], n)
+  IN [end    |-> end,
+      around |-> Conc([i \in 1..n |-> {a \in 1..(i - 1) : t[a].k = "Fork" /\ i <= end[a]}], n)]
+
+InSub(v, a, i) == a <= i /\ i <= v.end[a]
+Forks(t)       == {a \in 1..Len(t) : t[a].k = "Fork"}
 
 -----------------------------------------------------------------------------
 (* THE DEFINITIONS.                                                         *)
 (* Leaf j is above node i: j comes before i, j is a non-compute leaf, and   *)
 (* every Fork that contains j also contains i (j is not in a side branch    *)
 (* that i is not part of).                                                  *)
-Above(t, j, i) ==
+Above(t, v, j, i) ==
   /\ j < i
   /\ IsPathLeaf(t, j)
-  /\ \A a \in ForksAround(t, j) : InSub(t, a, i)
+  /\ \A a \in v.around[j] : InSub(v, a, i)
 
-Ancestors(t, i) == {j \in 1..Len(t) : Above(t, j, i)}
-AncSeq(t, i)    == Asc(Ancestors(t, i), Len(t))
+Ancestors(t, v, i) == {j \in 1..Len(t) : Above(t, v, j, i)}
+AncSeq(t, v, i)    == Asc(Ancestors(t, v, i), Len(t))
 
 \* C25: the flattened architecture of compute c, top-down
-Path(t, c) == Append(AncSeq(t, c), c)
+Path(t, v, c) == Append(AncSeq(t, v, c), c)
 
 \* product of the fanouts of the nodes listed in s
 RECURSIVE ProdSeq(_, _)
 ProdSeq(t, s) == IF s = <<>> THEN 1 ELSE t[Head(s)].f * ProdSeq(t, Tail(s))
 
 \* C26: number of instances of leaf i
-Instances(t, i) == t[i].f * ProdSeq(t, AncSeq(t, i))
+Instances(t, v, i) == t[i].f * ProdSeq(t, AncSeq(t, v, i))
 
 \* per-instance values (any positive integers; different per node and per quantity)
 ValA(i) == 2 * i + 3
 ValL(i) == 100 + 7 * i
-
-ComponentsOf(t) == {i \in 1..Len(t) : IsComponent(t, i)}
-
-RECURSIVE SumSeq(_)
-SumSeq(s) == IF s = <<>> THEN 0 ELSE Head(s) + SumSeq(Tail(s))
 
 -----------------------------------------------------------------------------
 (* Well-formed trees (the inputs the properties speak of)                   *)
@@ -113,31 +123,57 @@ ShapeOK(t) ==
             /\ (t[i].d = t[i - 1].d + 1) => IsBranch(t, i - 1)
     /\ (IsBranch(t, i) /\ i < Len(t)) => t[i + 1].d = t[i].d + 1  \* no empty branch
 
-HasCompute(t, a) == \E c \in Computes(t) : InSub(t, a, c)
-OnSomePath(t, j) == \E c \in Computes(t) : Above(t, j, c)
-Closed(t, a)     == SubEnd(t, a) < Len(t)
+HasCompute(t, v, a) == \E c \in Computes(t) : InSub(v, a, c)
+OnSomePath(t, v, j) == \E c \in Computes(t) : Above(t, v, j, c)
 
-\* a prefix that can still be completed: nothing that is already closed is wrong
-PrefixOK(t) ==
-  /\ ShapeOK(t)
-  /\ \A a \in Forks(t) : Closed(t, a) => HasCompute(t, a)
-  /\ \A j \in 1..Len(t) :
-       (IsPathLeaf(t, j) /\ \E a \in ForksAround(t, j) : Closed(t, a)) => OnSomePath(t, j)
-
-\* a complete tree: every Fork holds a compute, every other leaf lies on the path of
-\* some compute, no branch is empty
+\* a complete tree: no branch is empty, every Fork holds a compute, every other leaf
+\* lies on the path of some compute
 WF(t) ==
   /\ Len(t) >= 1
   /\ ShapeOK(t)
   /\ IsLeaf(t, Len(t))
   /\ Computes(t) # {}
-  /\ \A a \in Forks(t) : HasCompute(t, a)
-  /\ \A j \in 1..Len(t) : IsPathLeaf(t, j) => OnSomePath(t, j)
+  /\ LET v == View(t)
+     IN /\ \A a \in Forks(t) : HasCompute(t, v, a)
+        /\ \A j \in 1..Len(t) : IsPathLeaf(t, j) => OnSomePath(t, v, j)
+
+\* a prefix that can still be completed: nothing that is already closed is wrong
+PrefixOK(t) ==
+  /\ ShapeOK(t)
+  /\ LET v == View(t)
+         Closed(a) == v.end[a] < Len(t)
+     IN /\ \A a \in Forks(t) : Closed(a) => HasCompute(t, v, a)
+        /\ \A j \in 1..Len(t) :
+             (IsPathLeaf(t, j) /\ \E a \in v.around[j] : Closed(a)) => OnSomePath(t, v, j)
 
 NodeRecs ==
   [k : LeafKinds \ {"Compute"}, f : Fanouts, d : 1..MaxDepth]
     \cup [k : LeafKinds \cap {"Compute"}, f : ComputeFanouts, d : 1..MaxDepth]
-    \cup [k : BranchKinds, f : BranchTags, d : 1..(MaxDepth - 1)]
+    \cup [k : BranchKinds, f : {1}, d : 1..(MaxDepth - 1)]
+
+\* Appending a node of depth d to the prefix t (which is PrefixOK, v = View(t)) keeps it
+\* PrefixOK: only the Forks that the new node closes have to be looked at.  If the new
+\* node is a Compute the result is even WF: the Forks that stay open contain it, and so
+\* do all Forks around the leaves that were still waiting for a compute.
+\* (GrowIsPrefixOK and FullIsWF let TLC confirm both statements.)
+DepthOK(t, v, d) ==
+  LET n == Len(t)
+  IN IF n = 0 THEN d = 1
+     ELSE /\ d <= t[n].d + 1
+          /\ (d = t[n].d + 1) <=> IsBranch(t, n)         \* child iff the last node is a branch
+          /\ \A a \in Forks(t) :
+               (v.end[a] = n /\ d <= t[a].d) =>          \* the new node closes Fork a
+                 /\ HasCompute(t, v, a)
+                 /\ \A j \in (a + 1)..n :
+                      (IsPathLeaf(t, j) /\ \A b \in v.around[j] : b <= a) => OnSomePath(t, v, j)
+
+\* the nodes that may be appended to t when the tree is to have `target` nodes
+Extensions(t, target) ==
+  LET v  == View(t)
+      ds == {d \in 1..MaxDepth : DepthOK(t, v, d)}
+  IN {nd \in NodeRecs : /\ nd.d \in ds
+                        /\ (Len(t) + 1 = target) => nd.k = "Compute"
+                        /\ (nd.k \in BranchKinds) => Len(t) + 1 < target}
 
 -----------------------------------------------------------------------------
 (* The iterator ArchNode.iterate_hierarchically as a machine.               *)
@@ -165,31 +201,24 @@ RunSt(t, i, ac) == IF i = 0 THEN InitSt ELSE StepSt(t, RunSt(t, i - 1, ac), i, a
 \* Spec.calculate_component_costs: global_fanout from the yielded parent list
 AlgInst(t, y, own) == (IF own THEN t[y.n].f ELSE 1) * ProdSeq(t, y.seen)
 
+\* Hierarchical._flatten as coded: a Fork that does not contain c is skipped, other
+\* computes are passed over, finding c ends every enclosing loop
+RECURSIVE FlatFrom(_, _, _, _, _)
+FlatFrom(t, v, c, i, acc) ==
+  IF i > Len(t) THEN acc
+  ELSE IF t[i].k = "Fork" /\ ~ InSub(v, i, c) THEN FlatFrom(t, v, c, v.end[i] + 1, acc)
+  ELSE IF IsBranch(t, i) THEN FlatFrom(t, v, c, i + 1, acc)
+  ELSE IF IsCompute(t, i) THEN (IF i = c THEN Append(acc, i) ELSE FlatFrom(t, v, c, i + 1, acc))
+  ELSE FlatFrom(t, v, c, i + 1, Append(acc, i))
+
 -----------------------------------------------------------------------------
 (* Behaviours: grow a tree node by node; from any complete tree the         *)
 (* iterator may be started and then visits the nodes in preorder.           *)
 Init == tree = <<>> /\ pc = 0 /\ st = InitSt
 
-\* Appending nd to the prefix t (which is PrefixOK) keeps it PrefixOK: only what nd
-\* closes has to be looked at.  (GrowIsPrefixOK below lets TLC confirm the equivalence.)
-ExtendOK(t, nd) ==
-  LET n  == Len(t)
-      t2 == Append(t, nd)
-  IN IF n = 0 THEN nd.d = 1
-     ELSE /\ nd.d <= t[n].d + 1
-          /\ (nd.d = t[n].d + 1) <=> IsBranch(t, n)       \* child iff the last node is a branch
-          /\ \A a \in Forks(t) :
-               (SubEnd(t, a) = n /\ nd.d <= t[a].d) =>     \* nd closes Fork a
-                 /\ HasCompute(t, a)
-                 /\ \A j \in a..n : (IsPathLeaf(t, j) /\ SetMax(ForksAround(t, j)) = a)
-                                       => OnSomePath(t2, j)
-
 Grow == /\ pc = 0
         /\ Len(tree) < MaxN
-        /\ \E nd \in NodeRecs :
-             /\ ExtendOK(tree, nd)
-             /\ tree' = Append(tree, nd)
-             /\ (Len(tree') = MaxN => WF(tree'))
+        /\ \E nd \in Extensions(tree, MaxN) : tree' = Append(tree, nd)
         /\ UNCHANGED <<pc, st>>
 
 Start == /\ pc = 0
@@ -197,26 +226,41 @@ Start == /\ pc = 0
          /\ pc' = 1
          /\ UNCHANGED <<tree, st>>
 
-Visit(kinds) == /\ pc >= 1
-                /\ pc <= Len(tree)
-                /\ tree[pc].k \in kinds
-                /\ st' = StepSt(tree, st, pc, AppendComputes)
-                /\ pc' = pc + 1
-                /\ UNCHANGED tree
+Visiting(kinds) == pc >= 1 /\ pc <= Len(tree) /\ tree[pc].k \in kinds
+VisitStep == /\ st' = StepSt(tree, st, pc, AppendComputes)
+             /\ pc' = pc + 1
+             /\ UNCHANGED tree
 
-VisitLeaf == Visit({"Memory", "Toll", "Container", "Compute"})
-VisitHier == Visit({"Hierarchical"})
-VisitFork == Visit({"Fork"})
+VisitLeaf == Visiting({"Memory", "Toll", "Container", "Compute"}) /\ VisitStep
+VisitHier == Visiting({"Hierarchical"}) /\ VisitStep
+VisitFork == Visiting({"Fork"}) /\ VisitStep
 
 Next    == Grow \/ Start \/ VisitLeaf \/ VisitHier \/ VisitFork
 Spec    == Init /\ [][Next]_vars
-GenNext == Grow                       \* the case generator only grows trees
+GenNext == Grow                       \* the exhaustive case generator only grows trees
 
-\* for -simulate: one long walk that starts a new tree whenever the current one is full
-Restart     == pc = 0 /\ Len(tree) = MaxN /\ tree' = <<>> /\ UNCHANGED <<pc, st>>
-GenRandNext == Grow \/ Restart
+\* for -simulate: every step draws a fresh random well-formed tree with MinEmit..MaxN nodes
+\* (a branch node is drawn with probability 1/3 where one fits; reproducible under -seed)
+RECURSIVE RandGrow(_, _)
+RandGrow(t, target) ==
+  IF Len(t) = target THEN t
+  ELSE LET ext == Extensions(t, target)
+           cb  == {nd \in ext : nd.k \in BranchKinds}
+           cl  == ext \ cb
+       IN IF cb # {} /\ (cl = {} \/ RandomElement(1..3) = 1)
+          THEN RandGrow(Append(t, RandomElement(cb)), target)
+          ELSE IF cl # {} THEN RandGrow(Append(t, RandomElement(cl)), target)
+          ELSE t      \* cannot happen (a Compute always fits); such a t is not printed
+
+GenRandNext == /\ pc = 0
+               /\ tree' = RandGrow(<<>>, RandomElement(MinEmit..MaxN))
+               /\ UNCHANGED <<pc, st>>
 
 Done == pc = Len(tree) + 1
+
+\* Grow builds exactly the viable prefixes, and only complete trees of full length
+GrowIsPrefixOK == pc = 0 => PrefixOK(tree)
+FullIsWF       == Len(tree) = MaxN => WF(tree)
 
 \* every leaf is yielded exactly once, in preorder
 AllLeavesYielded ==
@@ -224,48 +268,32 @@ AllLeavesYielded ==
 
 \* the parent list, read at the moment of the yield, is the list of ancestors
 YieldedParentsAreAncestors ==
-  pc >= 1 => \A k \in 1..Len(st.ys) : st.ys[k].seen = AncSeq(tree, st.ys[k].n)
+  pc >= 1 => LET v == View(tree)
+             IN \A k \in 1..Len(st.ys) : st.ys[k].seen = AncSeq(tree, v, st.ys[k].n)
 
 \* the yielded list *object*, read after the iteration, is still the list of ancestors
 \* (false for every variant: the object is shared and keeps growing -- aliasing)
 RetainedParentsAreAncestors ==
-  Done => \A k \in 1..Len(st.ys) : st.lists[st.ys[k].l] = AncSeq(tree, st.ys[k].n)
+  Done => LET v == View(tree)
+          IN \A k \in 1..Len(st.ys) : st.lists[st.ys[k].l] = AncSeq(tree, v, st.ys[k].n)
 
 \* calculate_component_costs on top of the iterator counts the instances
 CostsCorrect ==
-  Done => \A k \in 1..Len(st.ys) :
-            IsComponent(tree, st.ys[k].n) =>
-              AlgInst(tree, st.ys[k], CountOwn) = Instances(tree, st.ys[k].n)
+  Done => LET v == View(tree)
+          IN \A k \in 1..Len(st.ys) :
+               IsComponent(tree, st.ys[k].n) =>
+                 AlgInst(tree, st.ys[k], CountOwn) = Instances(tree, v, st.ys[k].n)
 
-\* Hierarchical._flatten as coded (a Fork that does not contain c is skipped, other
-\* computes are passed over, finding c ends every enclosing loop) returns the definition
-RECURSIVE FlatFrom(_, _, _, _)
-FlatFrom(t, c, i, acc) ==
-  IF i > Len(t) THEN acc
-  ELSE IF t[i].k = "Fork" /\ ~ InSub(t, i, c) THEN FlatFrom(t, c, SubEnd(t, i) + 1, acc)
-  ELSE IF IsBranch(t, i) THEN FlatFrom(t, c, i + 1, acc)
-  ELSE IF IsCompute(t, i) THEN (IF i = c THEN Append(acc, i) ELSE FlatFrom(t, c, i + 1, acc))
-  ELSE FlatFrom(t, c, i + 1, Append(acc, i))
-
-FlattenIsPath == WF(tree) => \A c \in Computes(tree) : FlatFrom(tree, c, 1, <<>>) = Path(tree, c)
+\* _flatten as coded returns the definition
+FlattenIsPath ==
+  WF(tree) => LET v == View(tree)
+              IN \A c \in Computes(tree) : FlatFrom(tree, v, c, 1, <<>>) = Path(tree, v, c)
 
 -----------------------------------------------------------------------------
 (* Case records for the harness (binding B).  Names are given here so that  *)
 (* the expected paths are lists of names.                                   *)
 Name(i) == "n" \o ToString(i)
 Names(s) == [k \in 1..Len(s) |-> Name(s[k])]
-
-RECURSIVE Conc(_, _)    \* the function f over 1..n as an explicit tuple (each f[k] evaluated once)
-Conc(f, n) == IF n = 0 THEN <<>> ELSE Append(Conc(f, n - 1), f[n])
-
-\* outcome of a variant of the algorithm (s = final iterator state), per component and in total
-VariantRec(t, s, own) ==
-  LET comp == SelectSeq(s.ys, LAMBDA y : IsComponent(t, y.n))
-      m    == Len(comp)
-      inst == Conc([k \in 1..m |-> AlgInst(t, comp[k], own)], m)
-  IN [inst |-> [k \in 1..m |-> [name |-> Name(comp[k].n), inst |-> inst[k]]],
-      total_area |-> SumSeq([k \in 1..m |-> ValA(comp[k].n) * inst[k]]),
-      total_leak |-> SumSeq([k \in 1..m |-> ValL(comp[k].n) * inst[k]])]
 
 NodesRec(t) ==
   [i \in 1..Len(t) |->
@@ -275,16 +303,30 @@ NodesRec(t) ==
 
 \* C25: the tree and, per compute, the expected flattened architecture
 Rec25(t) ==
-  LET cs == Asc(Computes(t), Len(t))
+  LET v  == View(t)
+      cs == Asc(Computes(t), Len(t))
   IN [nodes |-> NodesRec(t),
-      paths |-> [k \in 1..Len(cs) |-> [c |-> Name(cs[k]), path |-> Names(Path(t, cs[k]))]]]
+      paths |-> [k \in 1..Len(cs) |-> [c |-> Name(cs[k]), path |-> Names(Path(t, v, cs[k]))]]]
+
+\* outcome of a variant of the algorithm (s = final iterator state), per component and in total
+VariantRec(t, s, own) ==
+  LET comp == SelectSeq(s.ys, LAMBDA y : IsComponent(t, y.n))
+      m    == Len(comp)
+      inst == Conc([k \in 1..m |-> AlgInst(t, comp[k], own)], m)
+  IN [comps |-> [k \in 1..m |->
+                   [name |-> Name(comp[k].n), inst |-> inst[k],
+                    total_area |-> ValA(comp[k].n) * inst[k],
+                    total_leak |-> ValL(comp[k].n) * inst[k]]],
+      total_area |-> SumSeq([k \in 1..m |-> ValA(comp[k].n) * inst[k]]),
+      total_leak |-> SumSeq([k \in 1..m |-> ValL(comp[k].n) * inst[k]])]
 
 \* C26: the tree and, per component, the expected number of instances and totals
 Rec26(t) ==
   LET n     == Len(t)
+      v     == View(t)
       comps == Asc(ComponentsOf(t), n)
       m     == Len(comps)
-      inst  == Conc([k \in 1..m |-> Instances(t, comps[k])], m)   \* from the definition
+      inst  == Conc([k \in 1..m |-> Instances(t, v, comps[k])], m)   \* from the definition
       sT    == RunSt(t, n, TRUE)
       sF    == RunSt(t, n, FALSE)
   IN [nodes |-> NodesRec(t),
@@ -304,7 +346,4 @@ Rec26(t) ==
 
 Emit25 == (WF(tree) /\ Len(tree) >= MinEmit) => PrintT(ToJson(Rec25(tree)))
 Emit26 == (WF(tree) /\ Len(tree) >= MinEmit) => PrintT(ToJson(Rec26(tree)))
-
-\* Grow builds exactly the viable prefixes
-GrowIsPrefixOK == pc = 0 => PrefixOK(tree)
 =============================================================================
